@@ -15,6 +15,7 @@ import (
 	"context"
 	"fmt"
 	"regexp"
+	"runtime"
 	"sort"
 	"strconv"
 	"strings"
@@ -72,6 +73,13 @@ type vWorld struct {
 	sync     int // requests in flight that the loop answers within the same arm
 	regMu    sync.Mutex
 	stuck    bool
+	// controlled static source instance (shim tools/harness/c19src): Run() invocations alive
+	runAlive int
+	runMax   int
+	runFail  chan struct{} // fail channel of the most recently started Run (a zombie keeps its own)
+	runLast  bool          // the most recently started Run is still alive
+	runQuit  chan struct{} // closed at teardown: zombies end without reporting
+	swapped  bool
 	drainD   []chan defs.PathDescribeRes  // answer channels of all describe requests (drained for duplicates)
 	drainR   []chan defs.PathAddReaderRes // ... and of all add-reader requests
 }
@@ -305,6 +313,8 @@ func vTeardown() {
 	w.pa.close()
 	w.pa.wait()
 	synctest.Wait()
+	close(w.runQuit)
+	synctest.Wait()
 	for _, ch := range w.drainD {
 		close(ch)
 	}
@@ -384,8 +394,48 @@ func vReset(f []string) string {
 		readTimeout: conf.Duration(10 * time.Second), writeTimeout: conf.Duration(10 * time.Second),
 	}
 	vW = w
+	w.runQuit = make(chan struct{})
 	w.pa.initialize()
-	return w.settle()
+	out := w.settle()
+	if h, ok := w.pa.source.(*staticsources.Handler); ok {
+		if set, ok2 := verifutil.Funcs["c19_set_instance"].(func(any, func(context.Context) error) bool); ok2 {
+			w.swapped = set(h, w.sourceRun)
+		}
+	}
+	return out
+}
+
+// Run() of the controlled static source instance: lives until its context is cancelled (Stop / retry),
+// or until the harness makes it fail (`srcfail`).  At teardown a Run that nobody cancelled (a zombie)
+// ends the goroutine without reporting, so that the bubble can be left.
+func (w *vWorld) sourceRun(ctx context.Context) error {
+	fail := make(chan struct{}, 1)
+	w.mu.Lock()
+	w.runAlive++
+	if w.runAlive > w.runMax {
+		w.runMax = w.runAlive
+	}
+	w.runFail, w.runLast = fail, true
+	w.mu.Unlock()
+	done := func() {
+		w.mu.Lock()
+		w.runAlive--
+		if w.runFail == fail {
+			w.runLast = false
+		}
+		w.mu.Unlock()
+	}
+	select {
+	case <-ctx.Done():
+		done()
+		return fmt.Errorf("terminated")
+	case <-fail:
+		done()
+		return fmt.Errorf("verif: source failed")
+	case <-w.runQuit:
+		runtime.Goexit()
+	}
+	return nil
 }
 
 // wait for quiescence, then render what the loop did and which answers arrived
@@ -693,6 +743,31 @@ func vExec(op string) string {
 		}()
 		return w.settle()
 
+	case "srcfail":
+		// the running instance fails (the handler then retries after its 5 s pause); invisible to the loop
+		w.mu.Lock()
+		if w.swapped && w.runLast && len(w.runFail) == 0 {
+			w.runFail <- struct{}{}
+		}
+		w.mu.Unlock()
+		return w.settle()
+
+	case "runs":
+		// how many Run() of the static source are alive now / at most at the same time since the last query
+		out := w.settle()
+		w.mu.Lock()
+		a, m := w.runAlive, w.runMax
+		w.runMax = w.runAlive
+		w.mu.Unlock()
+		if !w.swapped {
+			return "runs=na"
+		}
+		r := fmt.Sprintf("runs=%d max=%d", a, m)
+		if out != "-" {
+			r = out + " " + r
+		}
+		return r
+
 	case "reload":
 		nc := pa.SafeConf().Clone()
 		if vB(f[1]) {
@@ -891,9 +966,42 @@ func vGenOfflineAA(r *verifutil.Rand) []string {
 	return append(ops, "close", "write 0")
 }
 
+// C19: on-demand static source whose first Run fails and whose retry succeeds; then stop (close
+// delay, timeout or path close) and a later demand: never more than one Run alive, none after a stop
+func vGenSourceRetry(r *verifutil.Rand) []string {
+	c := &vGenCfg{kind: "static", sod: true, rx: r.Bool(), max: 0, startMs: 30000, closeMs: []int{1000, 7000}[r.Intn(2)]}
+	ops := []string{c.resetLine(), "runs"}
+	rid := 0
+	cycles := 1 + r.Intn(3)
+	for k := 0; k < cycles; k++ {
+		rid++
+		ops = append(ops, fmt.Sprintf("addrd %d %d", rid, k), "runs")
+		fails := r.Intn(3)
+		for f := 0; f < fails; f++ {
+			ops = append(ops, "srcfail", "runs", fmt.Sprintf("sleep %d", 5000+r.Intn(200)), "runs")
+		}
+		switch r.Intn(4) {
+		case 0: // never becomes ready: start timeout
+			ops = append(ops, "tick", "runs")
+		case 1: // path closed while running
+			ops = append(ops, "srcready 1", "runs", "close", "runs")
+			return ops
+		default:
+			ops = append(ops, "srcready 1", "runs", fmt.Sprintf("rmrd %d", k), "tick", "runs")
+		}
+	}
+	if r.Bool() {
+		ops = append(ops, "close", "runs")
+	}
+	return ops
+}
+
 func vGenHistory(r *verifutil.Rand, prop string, thorough bool) []string {
 	if prop == "C18" && r.Chance(1, 10) {
 		return vGenOfflineAA(r)
+	}
+	if prop == "C19" && r.Chance(1, 8) {
+		return vGenSourceRetry(r)
 	}
 	c := vGenConf(r, prop)
 	ops := []string{c.resetLine()}
